@@ -29,6 +29,53 @@ pub struct Shapes {
     note: Option<String>,
 }
 
+/// further shapes, outside the enumerated contract: only optional fields, a raw identifier, three attributes on
+/// one field, a list with the default codec of its element type (custom (de)serialiser on the Vec)
+fn ser_words(v: &Vec<String>) -> String { v.join(" ") }
+fn de_words(s: &str) -> Result<Vec<String>, String> { Ok(s.split_whitespace().map(|x| x.to_string()).collect()) }
+#[derive(FromDeb822, ToDeb822, PartialEq, Debug, Clone, Default)]
+pub struct AllOptional {
+    #[deb822(field = "Type")]
+    r#type: Option<String>,
+    #[deb822(field = "Words")]
+    #[deb822(serialize_with = ser_words)]
+    #[deb822(deserialize_with = de_words)]
+    words: Option<Vec<String>>,
+    plain: Option<u32>,
+}
+fn extra_shapes<P: Backend>(o: &mut Outcome, feats: &[String]) where AllOptional: FromDeb822Paragraph<P> + ToDeb822Paragraph<P> {
+    let be = P::NAME;
+    let api = format!("{} derive on an all-optional struct", be);
+    let values = [AllOptional::default(),
+        AllOptional { r#type: Some("deb".into()), words: Some(vec!["a".into(), "b".into()]), plain: Some(7) },
+        AllOptional { r#type: None, words: Some(vec!["x".into()]), plain: None }];
+    for x in values.iter() {
+        o.evals += 1;
+        let r = guarded(&api, || {
+            let p = <AllOptional as ToDeb822Paragraph<P>>::to_paragraph(x);
+            let want: Vec<(String, String)> = [x.r#type.clone().map(|v| ("Type".to_string(), v)), x.words.clone().map(|v| ("Words".to_string(), v.join(" "))), x.plain.map(|v| ("plain".to_string(), v.to_string()))].into_iter().flatten().collect();
+            if p.list() != want { return Err(format!("to_paragraph gave {:?}, expected {:?}", p.list(), want)); }
+            let back = <AllOptional as FromDeb822Paragraph<P>>::from_paragraph(&p).map_err(|e| format!("own paragraph rejected: {}", e))?;
+            if &back != x { return Err(format!("read back {:?}, expected {:?}", back, x)); }
+            // update: a paragraph holding all three fields and a foreign one, updated from x
+            let mut q = P::build(&[("Other".to_string(), "keep".to_string()), ("Type".to_string(), "old".to_string()), ("Words".to_string(), "o l d".to_string()), ("plain".to_string(), "1".to_string())]);
+            <AllOptional as ToDeb822Paragraph<P>>::update_paragraph(x, &mut q);
+            let mut w2 = vec![("Other".to_string(), "keep".to_string())]; w2.extend(want.clone());
+            let (mut got, mut exp) = (q.list(), w2); got.sort(); exp.sort();
+            if got != exp { return Err(format!("after update_paragraph {:?}, expected {:?}", q.list(), exp)); }
+            Ok(())
+        });
+        match r { Ok(Ok(())) => {} Ok(Err(m)) => o.v("C16", "roundtrip", &api, "mismatch", feats, &format!("{:?}", x), m), Err(m) => o.v("C16", "roundtrip", &api, "panic", feats, &format!("{:?}", x), m) }
+    }
+    // an EMPTY paragraph reads as the all-None value
+    o.evals += 1;
+    match guarded(&api, || <AllOptional as FromDeb822Paragraph<P>>::from_paragraph(&P::build(&[]))) {
+        Ok(Ok(v)) => if v != AllOptional::default() { o.v("C16", "roundtrip", &api, "mismatch", feats, "", format!("empty paragraph read as {:?}", v)); },
+        Ok(Err(e)) => o.v("C16", "roundtrip", &api, "mismatch", feats, "", format!("empty paragraph rejected: {}", e)),
+        Err(m) => o.v("C16", "roundtrip", &api, "panic", feats, "", m),
+    }
+}
+
 const KEYS: [&str; 8] = ["name", "X-Count", "Items", "Priority", "Flag", "Note", "Other", "Zeta"];
 fn text(key: usize, v: u64) -> String {
     if v == 99 { return "###bad".into(); }
@@ -139,6 +186,11 @@ pub fn run(case: &Value, _seed: u64) -> Outcome {
     o.key = case.to_string();
     o.nontrivial = true;
     let feats = vec![format!("kind:{}", case["k"].as_str().unwrap_or(""))];
+    // the further shapes are independent of the case: run with the first broken case only
+    if case["k"] == "broken" && case["prior"].as_array().map(|a| a.len()) == Some(1) {
+        extra_shapes::<deb822_lossless::lossy::Paragraph>(&mut o, &feats);
+        extra_shapes::<deb822_lossless::lossless::Paragraph>(&mut o, &feats);
+    }
     let a = one_backend::<deb822_lossless::lossy::Paragraph>(&mut o, case, &feats);
     let b = one_backend::<deb822_lossless::lossless::Paragraph>(&mut o, case, &feats);
     if a != b { o.v("C16", "backends_agree", "lossy vs lossless paragraph", "mismatch", &feats, "", format!("lossy {:?} lossless {:?}", a, b)); }
